@@ -15,7 +15,7 @@ open Pegtl.Integer
 inductive Op
   | cu (m : Nat) | cp | cn | cs
   | ur | urn | ua | uw | uwn
-  | mr (m : Nat) | ma (m : Nat) | mw (m : Nat) | mwn (m : Nat)
+  | mr (m : Nat) | ma (m : Nat) | um (m : Nat) | mw (m : Nat) | mwn (m : Nat)
   | sr | srn | sa | sw | swn
   | unknown
 
@@ -32,6 +32,7 @@ def parseOp (s : String) : Op :=
   | ["cu", m] => .cu m.toNat!
   | ["mr", m] => .mr m.toNat!
   | ["ma", m] => .ma m.toNat!
+  | ["um", m] => .um m.toNat!
   | ["mw", m] => .mw m.toNat!
   | ["mwn", m] => .mwn m.toNat!
   | _ => .unknown
@@ -86,6 +87,7 @@ def evalOp (w : Nat) (bs : List UInt8) : Op → String
   | .uwn => showRes false "" (unsignedRule ⟨0, bs⟩)
   | .mr m => showRes false "" (maximumRule w m ⟨0, bs⟩)
   | .ma m => showRes true "uo" (withAction (maximumRule w m) (maximumAction w m) ⟨0, bs⟩)
+  | .um m => showRes true "uo" (withAction unsignedRule (maximumAction w m) ⟨0, bs⟩)
   | .mw m => showRes true "io" (maximumRuleWithAction w m ⟨0, bs⟩)
   | .mwn m => showRes false "io" (maximumRuleWithActionNothing w m ⟨0, bs⟩)
   | .sr => showRes false "" (signedRule ⟨0, bs⟩)
